@@ -128,6 +128,11 @@ example :
     (step true osFlock (step true osFlock s1 (.close 0)).1 (.open 2 7)).2 = .ok 1 ∧
     (step true osFlock (step true osFlock s1 (.crash 1)).1 (.open 2 7)).2 = .ok 1 ∧
     (step true osFlock s1 (.open 2 8)).2 = .ok 1 := by decide
+/-- `open_succeeds_when_free` is not vacuous: after open (proc 1) and the death of proc 1 the state is reachable,
+    nobody has path 7 open, and the theorem's conclusion is what the model computes -/
+example : Reach true osFlock (step true osFlock (step true osFlock init (.open 1 7)).1 (.crash 1)).1 ∧
+    writers (step true osFlock (step true osFlock init (.open 1 7)).1 (.crash 1)).1 7 = [] :=
+  ⟨.step (.crash 1) (.step (.open 1 7) .init), by decide⟩
 example : OsSound osFlock := osFlock_sound
 /-- racing creators under the source's protocol: one wins, the other is refused -/
 example : (OpenRace.runTrace false OpenRace.init [.openp 0, .openp 1, .lock 1, .lock 0]).map
